@@ -410,6 +410,75 @@ int main(int argc, char** argv) {
                 for (size_t k = 0; k < taus.size(); ++k)
                     out << "o susctau " << a << " " << b << " " << c << " " << d << " " << hx::d(taus[k]) << " " << cplxStr(X0.of_tau(taus[k]))
                         << " " << cplxStr(X1.of_tau(taus[k])) << "\n";
+            } else if (cmd == "tpc") {
+                std::string sub; is >> sub;
+                if (sub == "new") {
+                    s.TPC = new TwoParticleGFContainer(*s.Idx, *s.S, *s.H, *s.DM, *s.Ops);
+                    out << "o ok\n";
+                } else if (sub == "fill" || sub == "prepareall") {
+                    size_t n; is >> n;
+                    std::set<IndexCombination4> qs;
+                    for (size_t q = 0; q < n; ++q) { unsigned a, b, c, d; is >> a >> b >> c >> d; qs.insert(IndexCombination4(a, b, c, d)); }
+                    if (sub == "fill") s.TPC->fill(qs); else s.TPC->prepareAll(qs);
+                    out << "o ok\n";
+                } else if (sub == "computeall") {
+                    int split; is >> split;
+                    std::vector<boost::tuple<ComplexType, ComplexType, ComplexType> > nofreqs;
+                    s.TPC->computeAll(false, nofreqs, world, split != 0);
+                    out << "o ok\n";
+                } else if (sub == "list") {
+                    // canonical element numbers: order of first appearance of the pointer in creation order is not observable;
+                    // number the distinct pointers by their smallest owning key in NonTrivialElements/ElementsMap order
+                    std::map<TwoParticleGF*, int> ids;
+                    out << "o tpclist " << s.TPC->ElementsMap.size();
+                    for (std::map<IndexCombination4, ElementWithPermFreq<TwoParticleGF> >::iterator it = s.TPC->ElementsMap.begin();
+                         it != s.TPC->ElementsMap.end(); ++it) {
+                        TwoParticleGF* p = it->second.pElement.get();
+                        if (!ids.count(p)) { int k = ids.size(); ids[p] = k; }
+                        int perm = -1;
+                        for (int q = 0; q < 24; ++q) if (it->second.FrequenciesPermutation == permutations4[q]) perm = q;
+                        out << " " << it->first.Index1 << " " << it->first.Index2 << " " << it->first.Index3 << " " << it->first.Index4
+                            << " " << ids[p] << " " << perm << " " << p->getStatus();
+                    }
+                    out << " nt " << s.TPC->NonTrivialElements.size();
+                    for (std::map<IndexCombination4, boost::shared_ptr<TwoParticleGF> >::iterator it = s.TPC->NonTrivialElements.begin();
+                         it != s.TPC->NonTrivialElements.end(); ++it) {
+                        TwoParticleGF* p = it->second.get();
+                        out << " " << it->first.Index1 << " " << it->first.Index2 << " " << it->first.Index3 << " " << it->first.Index4
+                            << " " << (ids.count(p) ? ids[p] : -1) << " " << p->getStatus();
+                    }
+                    out << "\n";
+                } else if (sub == "get" || sub == "prepare" || sub == "compute") {
+                    unsigned a, b, c, d; is >> a >> b >> c >> d;
+                    ElementWithPermFreq<TwoParticleGF>& e = (*s.TPC)(a, b, c, d);
+                    if (sub == "prepare") { static_cast<TwoParticleGF&>(e).prepare(); out << "o ok\n"; }
+                    else if (sub == "compute") { static_cast<TwoParticleGF&>(e).compute(); out << "o ok\n"; }
+                    else {
+                        long n1, n2, n3; is >> n1 >> n2 >> n3;
+                        // reference: a two-particle Green's function constructed directly for this quadruple
+                        TwoParticleGF X(*s.S, *s.H, s.Ops->getAnnihilationOperator(a), s.Ops->getAnnihilationOperator(b),
+                                        s.Ops->getCreationOperator(c), s.Ops->getCreationOperator(d), *s.DM);
+                        X.prepare(); X.compute();
+                        ComplexType ref = X(n1, n2, n3);
+                        try {
+                            ComplexType v = e(n1, n2, n3);
+                            out << "o tpcget " << a << " " << b << " " << c << " " << d << " " << n1 << " " << n2 << " " << n3
+                                << " ok " << cplxStr(v) << " " << cplxStr(ref) << " " << int(X.isVanishing()) << "\n";
+                        } catch (std::exception& ex) {
+                            out << "o tpcget " << a << " " << b << " " << c << " " << d << " " << n1 << " " << n2 << " " << n3
+                                << " exc " << excName(ex) << " " << cplxStr(ref) << " " << int(X.isVanishing()) << "\n";
+                        }
+                    }
+                } else if (sub == "evalall") {
+                    long n1, n2, n3; is >> n1 >> n2 >> n3;
+                    int bad = 0, tot = 0;
+                    for (std::map<IndexCombination4, ElementWithPermFreq<TwoParticleGF> >::iterator it = s.TPC->ElementsMap.begin();
+                         it != s.TPC->ElementsMap.end(); ++it) {
+                        ++tot;
+                        try { (void)it->second(n1, n2, n3); } catch (std::exception&) { ++bad; }
+                    }
+                    out << "o tpcevalall " << tot << " " << bad << "\n";
+                } else out << "o badcmd\n";
             } else if (cmd == "vertex") {
                 unsigned i, j, k, l; long N; is >> i >> j >> k >> l >> N;
                 size_t nt; is >> nt;
